@@ -55,7 +55,9 @@ PROPS = {
         shrink_paths=[['signals'], ['faults'], ['script', 'registrations']],
         rule='scenario = whole driver run on a tiny LP/MIP + registration pattern of the solver stub + schedule of 1..3 SIGINT/SIGTERM '
              'at yield points (enumerated prefix: every single yield point x 2 signals, all ordered pairs and triples of SignalHandler hook points; '
-             'then seeded sampling incl. faults on the handler\'s write). Non-trivial = at least one signal was actually delivered; '
+             'then seeded sampling incl. faults on the handler\'s write, some of which persist (a full pipe); three driver parties: the StdBackend stub, a BasicBackend driver '
+             'whose application object runs 1..3 times, a StdBackend driver with a do-nothing model manager whose backend is handed the model 1..3 times; a registration pattern in which the '
+             'driver opens a new solver session per option parse and registers the session in use). Non-trivial = at least one signal was actually delivered; '
              'distinct = distinct (delivery points, signal numbers, registration state at delivery, exit) trace',
         assumptions=_DRV_ASSUME,
     ),
@@ -65,7 +67,9 @@ PROPS = {
         shrink_paths=[],
         rule='complete enumeration: every integer solve code -200..999 x {primal, dual, objective value present/absent} (8 patterns) x {-AMPL, wantsol=1} '
              'answered by the solver stub in a whole driver run on a tiny LP (even codes) / MIP (odd codes) with alg:rays=3 alg:iisfind=1 alg:kappa=2, '
-             'plus 4 runs of the -! switch. Every case is distinct and non-trivial (distinct = (code, pattern, mode)); fault-free by design (the statement has no fault clause)',
+             'plus: 16 runs of the -! switch under 8 sets of driver registrations; codes 0..999 through StdBackend::Abort from 2 call sites x 2 modes; sol:chk:fail (8 + every code); '
+             'every code x mip:round=1..7; every code x 6 failing result queries of the solver (IIS finder, GetIIS, rays, basis, sensitivity); 200 AMPLS C-API sessions '
+             '(several reports of one solver object, a third of them ending in the coded error 150). Every case is non-trivial (distinct = (code, pattern, mode, block)); the only injected faults are exceptions of the solver party',
         assumptions=_DRV_ASSUME + ['documented class table transcribed by hand from doc/source/features-guide.rst',
                                    'classification is observed through documented effects (objective in message, .unbdd/.dunbdd ray requests, IIS request, .kappa suffix); '
                                    'where the documentation is silent (100-199 objective, 450-469 rays/IIS, 300-399 IIS) either behaviour is accepted'],
@@ -121,7 +125,8 @@ PROPS = {
         shrink_paths=[['faults']],
         rule='scenario = seeded NL model (names with characters needing JSON escaping in 60%, infinite bounds in 40%) x acceptance profile x cvt:names x writegraph option under both '
              'names; whole driver run; the JSONL file left on the simulated disk is parsed line by line with a strict JSON parser and cross-checked against the constraints, variables '
-             'and objectives the solver stub received in the same run (final set == delivered multiset by content). Non-trivial = every run; distinct = (names?, delivered?, features, model size)',
+             'and objectives the solver stub received in the same run (final set == delivered multiset by content; every auxiliary variable is the destination of a link record). '
+             'History: in 15% the export file exists before the run (regular file or symbolic link to an earlier export); 1.2% big models (1050..1750 appended range rows). Non-trivial = every run; distinct = (names?, delivered?, features, model size)',
         assumptions=_DRV_ASSUME + ['strict JSON parser in sim/core/json.h (no bare inf/nan, escapes validated, control characters rejected)',
                                    'link node class names: src_vars()/src_cons()/src_objs()/dest_vars()/dest_objs()/dest_cons(g) or a CON_TYPE; dest_cons(g) ranges are not bounded by the oracle'],
     ),
@@ -152,7 +157,8 @@ PROPS['C08'] = dict(
          'patterns, sparse primal and dual warm starts, int/real suffixes of all four kinds, names) x {text, binary} x comments. One run = the whole loop in one process: real NLModel/'
          'NLSolver write the files to the simulated disk, mp reads them back into mp::Problem (bounds, types, class counts and block order by the reported permutation, rows, objective '
          'as a function at 16 points, warm starts, suffixes, names), then the intercepted system() runs the real driver with the tag-answering solver stub and the real ReadSolution '
-         'returns x, y and suffixes, checked through the permutation. Non-trivial = every run; distinct = (LP/QP, format, permuted?, names, size, Hessian format, suffix count)',
+         'returns x, y and suffixes, checked through the permutation. C++ or C flavour; step-wise or one-call entry; 35% histories on the same NLSolver / stub; 10% failing solver command '
+         '(no result, no stale solution); some names empty, names compared at the solver stub. Non-trivial = every run; distinct = (LP/QP, format, permuted?, names, size, Hessian format, suffix count)',
     assumptions=_DRV_ASSUME + ['objective reference = c0 + c.x + 0.5*sum over stored Hessian entries q*x_i*x_j for both declared formats (neither the written NL nor ComputeObjValue distinguishes the formats; recorded as an observation)',
                                'duplicate column entries within one matrix row are not generated',
                                'NLSolver::SetFileStub is always used (the auto-stub path with std::random_device / mkdtemp is not covered)'],
@@ -183,7 +189,8 @@ PROPS_IOSIM = {
              'what a crashed writer leaves behind) or by the own binary .sol emitter; then truncation / byte damage / one hostile field '
              '(counts line, option count, objno line, "suffix kind n namelen tablen tablines" fields, binary record lengths); declared problem '
              'size equal / 0 / smaller / larger; consumer script reading all / some / none of each offered vector, SetError mid-vector, '
-             'non-zero OnAMPLOptions; read faults SHORT/EIO/ZERO/fopen errors. Oracle: terminates, no sanitizer report, documented return '
+             'a consumer that rejects a completely read vector in its own words, non-zero OnAMPLOptions; six consumer parties (C++ handler, the library\'s C wrapper around a recording '
+             'callback table, its default C callback table, its own easy handler, the C flavour of that on a solver object with a history); read faults SHORT/EIO/ZERO/fopen errors. Oracle: terminates, no sanitizer report, documented return '
              'code with message, never offered more than declared, suffix name/table lengths as stated in the file, no vector reported '
              'complete that the complete file contradicts (prefix rule on truncated files). Non-trivial = anything but a pristine full read',
         assumptions=_IO_ASSUME,
@@ -197,7 +204,8 @@ PROPS_IOSIM = {
              '70% of scenarios restricted to 3..9 plain options so that the option findings do not mask everything else; primal/dual vectors '
              'absent / partial / full with 17-digit values, subnormals, extremes, -0 and (12%) Inf/NaN; objno; solve code; int/real suffixes of '
              'all four kinds with tables) written by the real mp::WriteSolFile and read by the real mp::ReadSOLFile with a consume-everything '
-             'recording handler; fault-free. Oracle: statement tolerances (integral < 1e15 exact, finite within 1e-15 relative, non-finite '
+             'recording handler; in 25% a second reader party, the library\'s easy handler (C++ or C flavour) for a mixed-class model, must return message, code, values and variable '
+             'suffixes in the caller\'s order. Fault-free, except a separate 6% configuration with one interrupted / short / failing flush of the writer (reported, or the complete file). Oracle: statement tolerances (integral < 1e15 exact, finite within 1e-15 relative, non-finite '
              'identical or non-OK code, message line by line modulo the reserved empty line). Non-trivial = has vectors or suffixes',
         assumptions=_IO_ASSUME,
     ),
@@ -209,7 +217,7 @@ PROPS_IOSIM = {
         rule='scenario = explicit model IR (>= 1 variable; every NL operator incl. iterated ones, if/implication, piecewise-linear terms, '
              'function calls with string arguments, defined variables, complementarity, suffixes of 4 kinds int/real, initial primal/dual '
              'values; 60% with awkward doubles: subnormals, +-DBL_MAX, 17-digit values, +-0, +-Inf) fed through the real NLW2 writer in text '
-             'AND binary, x comments on/off x bounds first/last x column sizes none/cumulative/plain, read back with the real mp::ReadNLFile '
+             'AND binary, x comments on/off x bounds first/last x column sizes none/cumulative/plain x output precision 0 / 17..30, read back with the real mp::ReadNLFile '
              '(flags 0 / READ_BOUNDS_FIRST) and the recording checker. Oracle: per-item reader history == feed history computed from the IR '
              '(operators through an independent name<->number table), doubles bit-identical except the sign of zero; text history == binary '
              'history. Fault-free. Non-trivial = model has constraints or objectives',
